@@ -35,6 +35,7 @@ type World struct {
 	Specs  *SpecWorld
 	Repo   string
 	cg *callGraph
+	ff *fvFlow
 	rtaInfo *rtaInfo
 	nonNilGlobals map[string]bool
 	skipTerminating *ast.BlockStmt
